@@ -281,6 +281,15 @@ func bound(c *vlib.Ctx) int {
 	return 12
 }
 
+// RunBFS is the sequential explicit-state search (also used by the combined C27 check in echecks/jobsconc).
+func RunBFS(c *vlib.Ctx) { run(c) }
+
+// ReplayBFS replays a sequential witness.
+func ReplayBFS(c *vlib.Ctx, w string) { replayWitness(c, w) }
+
+// Rule is the sequential part of the rule text.
+const RuleBFS = "breadth-first search over histories of {add, term:i, gc, get:i, latest, list} on a fresh lang.NewJobs() with at most N jobs ever added (N=10 quick, 12 thorough), canonical state = (jobs added, class of Get(i) for every i), every operation executed in every reachable state and compared with a model of the statement, to a fixpoint"
+
 func run(c *vlib.Ctx) {
 	n := bound(c)
 	seen := map[string]bool{newInst(n).canon(): true}
